@@ -157,9 +157,11 @@ def _seq_to_re(seq, flags: int, at_start: bool, at_end: bool) -> str:
         elif op is sre_c.IN:
             parts.append(ranges_to_re(class_ranges(av, ic, asc)))
         elif op is sre_c.BRANCH:
-            parts.append(app("re.union", *[_seq_to_re(b, flags, False, False) for b in av[1]]) if len(av[1]) > 1 else _seq_to_re(av[1][0], flags, False, False))
+            # an anchor at the start (end) of an alternative that itself starts (ends) the pattern is the pattern's anchor
+            st, en = at_start and idx == 0, at_end and idx == len(items) - 1
+            parts.append(app("re.union", *[_seq_to_re(b, flags, st, en) for b in av[1]]) if len(av[1]) > 1 else _seq_to_re(av[1][0], flags, st, en))
         elif op is sre_c.SUBPATTERN:
-            parts.append(_seq_to_re(av[3], flags, False, False))
+            parts.append(_seq_to_re(av[3], flags, at_start and idx == 0, at_end and idx == len(items) - 1))
         elif op in (sre_c.MAX_REPEAT, sre_c.MIN_REPEAT):
             lo, hi, sub = av
             r = _seq_to_re(sub, flags, False, False)
@@ -353,3 +355,93 @@ def native_class_plus_dollar(cls, s: str):
     while i > 0 and inc(s[i - 1]):
         i -= 1
     return (i, len(s))
+
+
+# ------------------------------------------------------------------------------------------------
+# languages of match() / search() success, and the single-class-run shape used by the re.sub contract
+# ------------------------------------------------------------------------------------------------
+ALL = "re.all"
+
+
+def _ends_anchored(seq) -> typing.Optional[bool]:
+    """True: every way through the sequence ends with `$`; False: none does; None: mixed (not supported)"""
+    items = list(seq)
+    if not items:
+        return False
+    op, av = items[-1]
+    if op is sre_c.AT and str(av).lower().endswith(("at_end", "at_end_string")):
+        return True
+    if op is sre_c.BRANCH:
+        r = {_ends_anchored(b) for b in av[1]}
+        return r.pop() if len(r) == 1 else None
+    if op is sre_c.SUBPATTERN:
+        return _ends_anchored(av[3])
+    return False
+
+
+def _starts_anchored(seq) -> typing.Optional[bool]:
+    items = list(seq)
+    if not items:
+        return False
+    op, av = items[0]
+    if op is sre_c.AT and "at_beginning" in str(av).lower():
+        return True
+    if op is sre_c.BRANCH:
+        r = {_starts_anchored(b) for b in av[1]}
+        return r.pop() if len(r) == 1 else None
+    if op is sre_c.SUBPATTERN:
+        return _starts_anchored(av[3])
+    return False
+
+
+@functools.lru_cache(None)
+def match_lang(pattern: str, flags: int = 0) -> str:
+    """{ s | re.compile(pattern, flags).match(s) is not None }  (no MULTILINE)"""
+    if flags & re.MULTILINE:
+        raise RegexOutOfSubset("MULTILINE")
+    seq = parse(pattern, flags)
+    body = _seq_to_re(seq, flags, True, True)
+    en = _ends_anchored(seq)
+    if en is None:
+        raise RegexOutOfSubset("alternatives that differ in their end anchor")
+    return body if en else app("re.++", body, ALL)
+
+
+@functools.lru_cache(None)
+def search_lang(pattern: str, flags: int = 0) -> str:
+    """{ s | re.compile(pattern, flags).search(s) is not None }"""
+    st = _starts_anchored(parse(pattern, flags))
+    if st is None:
+        raise RegexOutOfSubset("alternatives that differ in their start anchor")
+    m = match_lang(pattern, flags)
+    return m if st else app("re.++", ALL, m)
+
+
+def single_class_run(pattern: str, flags: int = 0):
+    """[^] C{lo,hi} [$] (optionally inside one capturing group) -> (anchored_start, ranges of C, lo, hi|None, anchored_end)"""
+    items = list(parse(pattern, flags))
+    while len(items) == 1 and items[0][0] is sre_c.SUBPATTERN:
+        items = list(items[0][1][3])
+    st = en = False
+    if items and items[0][0] is sre_c.AT and "at_beginning" in str(items[0][1]).lower():
+        st, items = True, items[1:]
+    if items and items[-1][0] is sre_c.AT and str(items[-1][1]).lower().endswith("at_end"):
+        en, items = True, items[:-1]
+    if len(items) != 1:
+        return None
+    op, av = items[0]
+    lo, hi = 1, 1
+    if op in (sre_c.MAX_REPEAT,):
+        lo, hi, sub = av
+        sub = list(sub)
+        if len(sub) != 1:
+            return None
+        op, av = sub[0]
+        hi = None if hi is sre_c.MAXREPEAT else hi
+    if op is sre_c.IN:
+        rs = class_ranges(av, bool(flags & re.IGNORECASE), bool(flags & re.ASCII))
+    elif op is sre_c.LITERAL:
+        rs = [(av, av)]
+    else:
+        return None
+    return st, _merge(list(rs)), lo, hi, en
